@@ -1,10 +1,19 @@
 #!/bin/bash
-# Builds the verification framework from files on disk only (offline).
+# Builds the verification framework from files on disk only (offline), and a warm base
+# build cache (out/gocache-base) that every check run clones by hard links.
 set -euo pipefail
 cd "$(dirname "$0")"
 export PATH=/opt/veriftools/go1.26.8/bin:$PATH GOROOT=/opt/veriftools/go1.26.8 GOTOOLCHAIN=local GOPROXY=off GOFLAGS=-mod=mod GOSUMDB=off GOWORK=off
 mkdir -p bin out evidence
-cd harness
-go build -o ../bin/verifctl ./ctl
-go test -c -o ../bin/verif.test ./props
+BASE="$PWD/out/gocache-base"
+if [ "${1:-}" = "--fast" ] && [ -d "$BASE" ]; then
+  # rebuild the framework binaries only (development)
+  (cd harness && GOCACHE="$BASE" go build -o ../bin/verifctl ./ctl && GOCACHE="$BASE" go test -c -o ../bin/verif.test ./props)
+  echo "setup ok (fast)"; exit 0
+fi
+rm -rf "$BASE.tmp"; mkdir -p "$BASE.tmp"
+export GOCACHE="$BASE.tmp" VERIF_GOCACHE="$BASE.tmp"
+(cd harness && go build -o ../bin/verifctl ./ctl && go test -c -o ../bin/verif.test ./props)
+VERIF_DIR="$PWD" bin/verifctl --warm-cache
+rm -rf "$BASE"; mv "$BASE.tmp" "$BASE"
 echo "setup ok"
